@@ -385,10 +385,20 @@ fn ek_value(k: EK, depth: usize) -> toml::Value {
 }
 
 fn value_trees(rep: &mut Report, tier: Tier, c13: bool) {
+    // 1 .. N keys (a document that is ONE header line matters as much as a full one), plain keys and keys that look
+    // like values (`[1]`, `[true]` are headers, not arrays)
+    for n in 1..=tier.pick(3usize, 4usize) {
+        value_trees_n(rep, n, ["a", "b", "c", "d"], c13);
+        if n <= 2 {
+            value_trees_n(rep, n, ["1", "true", "1979-05-27", "inf"], c13);
+            value_trees_n(rep, n, ["a b", "", "'", "é"], c13);
+        }
+    }
+}
+
+fn value_trees_n(rep: &mut Report, n: usize, keys: [&'static str; 4], c13: bool) {
     let t0 = std::time::Instant::now();
     let kinds = [EK::Scalar, EK::Array, EK::Aot, EK::Table, EK::MixedArray, EK::EmptyTable, EK::EmptyArray, EK::Dt];
-    let keys = ["a", "b", "c", "d"];
-    let n = tier.pick(3usize, 4usize);
     // every assignment of a kind to each of n keys x every insertion order (permutation) of the keys
     let mut cases: Vec<String> = Vec::new();
     let total_assign = kinds.len().pow(n as u32);
@@ -499,6 +509,15 @@ fn value_trees(rep: &mut Report, tier: Tier, c13: bool) {
                 if crate::real::canon_toml_value(&back, true) != crate::real::canon_toml_value(&v, true) {
                     return Err(format!("{} output {:?} decodes to {} instead of {}", name, text, crate::real::canon_toml_value(&back, true), crate::real::canon_toml_value(&v, true)));
                 }
+                // the FromStr impls are decoding routes of their own
+                let via_fs: toml::Value = text.parse().map_err(|e: toml::de::Error| format!("{} output {:?} does not parse through str::parse::<Value>: {}", name, text, e.message()))?;
+                if crate::real::canon_toml_value(&via_fs, true) != crate::real::canon_toml_value(&v, true) {
+                    return Err(format!("{} output {:?} read with str::parse::<toml::Value> gives {} instead of {}", name, text, crate::real::canon_toml_value(&via_fs, true), crate::real::canon_toml_value(&v, true)));
+                }
+                let via_ft: toml::Table = text.parse().map_err(|e: toml::de::Error| format!("{} output {:?} does not parse through str::parse::<Table>: {}", name, text, e.message()))?;
+                if crate::real::canon_toml_table(&via_ft, true) != crate::real::canon_toml_value(&v, true) {
+                    return Err(format!("{} output {:?} read with str::parse::<toml::Table> gives {} instead of {}", name, text, crate::real::canon_toml_table(&via_ft, true), crate::real::canon_toml_value(&v, true)));
+                }
                 // the same printer applied to the re-parsed value
                 let text2 = match name {
                     "toml::to_string_pretty" => toml::to_string_pretty(&back).map_err(|e| e.to_string())?,
@@ -528,7 +547,7 @@ fn value_trees(rep: &mut Report, tier: Tier, c13: bool) {
         }
     };
     let (total, acc) = crate::universe::sweep_list(&cases, &f);
-    rep.absorb("U-value-tree", &format!("toml::Value tables with {} keys: every assignment of 8 entry kinds (incl. a date-time) x every insertion order x 2 nesting depths", n), total, true, t0, acc);
+    rep.absorb("U-value-tree", &format!("toml::Value tables with {} keys from {:?}: every assignment of 8 entry kinds (incl. a date-time) x every insertion order x 2 nesting depths", n, &keys[..n]), total, true, t0, acc);
 }
 
 pub fn c17(tier: Tier) -> i32 {
